@@ -197,3 +197,35 @@ Print Assumptions C04_chain_round_potential.
 Print Assumptions C04_chain_settle_quiet.
 Print Assumptions C04_chain_potential_bound.
 Print Assumptions C04_chain_rounds.
+
+(* inside the clock range of the timer wheel neither the oracle taint nor the rounds budget can occur *)
+From TarpcV Require TimerWheelProofs5 TimerWheelProofs6 ChainOracle.
+Local Open Scope N_scope.
+(* on the COMPOSITION, every depth, every op list: while the chain's clock - the sum of its
+   Advance ops - stays at or below 2^36 - 1 - MAX_TIMEOUT = 37183476735 ms, the timer-order
+   oracle of no node ever disagrees: KOracle is never printed *)
+Theorem C04_chain_no_oracle : forall (d : nat) (ops : list Chain.cop),
+  ChainOracle.chain_advs ops <= TimerWheelProofs5.LIMIT ->
+  forall l i, In l (fst (Chain.run d ops)) -> ~ In (Chain.KOracle i) l.
+Proof. exact ChainOracle.chain_no_oracle. Qed.
+
+(* hence, with a clock-range hypothesis instead of the observational one of C04_chain_rounds:
+   every SettleAll reaches a quiet round within Chain.rounds_of rounds *)
+Theorem C04_chain_rounds_clock : forall (d : nat) (ops : list Chain.cop),
+  ChainOracle.chain_advs ops <= TimerWheelProofs5.LIMIT ->
+  forall l, In l (fst (Chain.run d ops)) -> ~ In Chain.KRounds l.
+Proof. exact ChainOracle.chain_rounds_clock. Qed.
+
+(* the two taints of the cascade monitor (Chain.mon_obs) that stem from the timer wheel - KOracle
+   and KRounds - cannot occur inside the clock range: C04_chain_cascade is not vacuous because
+   of them *)
+Theorem C04_chain_clock_clean : forall (d : nat) (ops : list Chain.cop),
+  ChainOracle.chain_advs ops <= TimerWheelProofs5.LIMIT ->
+  forall l, In l (fst (Chain.run d ops)) -> ~ In Chain.KRounds l /\ forall i, ~ In (Chain.KOracle i) l.
+Proof.
+  intros d ops H l Hl. split; [exact (ChainOracle.chain_rounds_clock d ops H l Hl)|].
+  intro i. exact (ChainOracle.chain_no_oracle d ops H l i Hl).
+Qed.
+Print Assumptions C04_chain_no_oracle.
+Print Assumptions C04_chain_rounds_clock.
+Print Assumptions C04_chain_clock_clean.
